@@ -19,9 +19,18 @@ CHECKS = {
  "C09": dict(cat="exploration", engine="E3-enumeration", tech=TECH_ENUM,
    text="every chain of condition-free calls up to length 2-4 x every update/delete finisher x plain/soft-delete model x AllowGlobalUpdate modes is executed on SQLite behind a recording driver; oracle = error identity + empty driver log + cell-level table diff; the positive half inserts each of 16 real conditions at every position",
    note="SQLite dialect; alphabets of DESIGN.md §3 C09; recording driver wraps mattn/go-sqlite3"),
+ "C10": dict(cat="exploration", engine="E3-enumeration", tech=TECH_ENUM,
+   text="reflect.StructOf model family (4 data fields, each with one of 9 permission tags, auto-time pairs in int64/time.Time variants; 36 models quick, 484 thorough incl. all two-tag pairs) x 21 write programs (Create struct/map/batches/[]map, upserts UpdateAll/DoUpdates/DoNothing, Save existing/absent/new/slice, Updates struct/map, Update, UpdateColumn(s)) x Select/Omit sets (names by field/column spelling, '*', '*'+Omit) x value patterns (absent/zero/non-zero/Expr) x targets (key, condition, both): cell-by-cell diff of a 3-row table against a reference write set; hard core asserted for every case (denied fields never written, rows outside the target unchanged, UpdateColumn(s) never touch auto-time, hook-running updates refresh autoUpdateTime unless omitted) plus the documented positive rules",
+   note="SQLite dialect; cells the documentation leaves open are classed free and listed in the evidence assumptions; 1 open known finding"),
+ "C11": dict(cat="exploration", engine="E3-enumeration", tech=TECH_ENUM,
+   text="9 model families (has-one, has-many by value/pointer, belongs-to, many-to-many incl. composite left key, polymorphic, self-referential, composite (string,string)/(string,int) keys, nested path) x all data graphs within <=2-3 parents x <=2-3 children over a key alphabet built to collide ('a_b','b_c','_','nil','', 0, NULL) incl. one soft-deleted child x 386 loader/shape checks (Preload single/nested/Associations/with condition/with scope, association Joins, Association().Find; struct, []T, []*T, duplicated parents): loaded children per parent equal a reference join computed over the inserted rows",
+   note="rows inserted by raw SQL; all-zero key tuples are 'no key' records and not compared; 3 open known findings with one root cause (utils.ToStringKey not injective)"),
  "C13": dict(cat="fault_enumeration", engine="E1-choice-tree", tech=TECH_FAULT,
    text="2661 programs (9 operations x 6 argument shapes of length 0-3 x child configurations by value/pointer x hooks/SkipHooks/UpdateColumn x own/caller transaction) are executed on SQLite with every hook invocation a choice point; every single hook failure (quick) and every pair (thorough) is enumerated; oracle: per-record hook multiset and order relative to the statement in the driver log, hooks run inside the operation's transaction (driver-level BEGIN window), failing hook => error returned, no later phase, all tables incl. the hooks' own marker writes equal the pre-state, SetColumn values are the values stored",
    note="SQLite dialect; hook logging through a Logger wrapper; assumptions listed in evidence; Save of a non-zero non-existing key, CreateInBatches and SkipDefaultTransaction are outside the alphabet"),
+ "C15": dict(cat="exploration", engine="E3-enumeration", tech=TECH_ENUM,
+   text="table sizes 0..N (N=7 quick, 12 thorough) x conditions x orderings x every single Limit/Offset (absent, 0..N+1, -1), every override/cancel pair in 4 call layouts x 42 read paths (Find into []T/[]*T/arrays/maps/struct/pointer, Rows+ScanRows, Scan, Pluck per column into typed slices, primitives, Count, First/Take/Last with inline conditions, FindInBatches with every batch size 1..N+1): pairwise agreement and agreement with a reference window over the sorted in-memory table; ErrRecordNotFound iff empty; RowsAffected; FindInBatches = Find+Order(pk) exactly, once each, ascending, batches <= size, numbered 1,2,3…",
+   note="SQLite rowid scan order assumed for chains without ORDER BY; zero as the later value of an override pair excluded; 1 open known finding (Pluck of NULL into []*int), 1 fixed (FindInBatches Limit(0))"),
  "C16": dict(cat="model_checking", engine="E3-enumeration", tech=TECH_BFS,
    text="explicit-state BFS over sequences (<=3 quick, <=4 thorough) of Save / Create+OnConflict{DoNothing,UpdateAll,DoUpdates(all column subsets)} / FirstOrInit / FirstOrCreate (struct+map conditions, Attrs/Assign in struct, map, key-value form) / soft-delete on key space {1,2,3}, plain and soft-delete model, state = table dump (timestamps masked), every transition executed on gorm over SQLite with a reference map stepped in lock-step; 880 chain shapes with Session(&Session{})/WithContext inserted at every position are compared with the unwrapped chain; FirstOrInit must send no write, FirstOrCreate at most one",
    note="SQLite dialect; successor = re-seed state + one operation, each expanded state also reached by replaying its real history; attrs overlapping condition columns and empty DoUpdates outside the alphabet"),
